@@ -234,6 +234,18 @@ def _case_terms(case, part):
             out.append(("C05:hash-unstable", {"term": texts[0]}))
         if u == v and str(u.expr) == str(v.expr) and hash(u) != hash(v):
             out.append(("C05:hash-eq", {"terms": texts[:2]}))
+        # the same product reached by another association / order / from its own printed expression: equal expression, equal
+        # unit (scales may differ in the last bit: float products are not associative) => equal hash, findable as a dict key
+        assoc = [("(u*v)*w", (u * v) * w), ("u*(v*w)", u * (v * w)), ("(w*v)*u", (w * v) * u), ("(u*w)*v", (u * w) * v)]
+        try:
+            assoc.append(("Unit(expr)", Unit((u * v * w).expr, registry=reg)))
+        except Exception:
+            pass
+        n0, a0 = assoc[0]
+        for nm_, a_ in assoc[1:]:
+            if _finite(a0, a_) and a_.expr == a0.expr and a_ == a0 and (hash(a_) != hash(a0) or {a0: 1}.get(a_) != 1):
+                out.append(("C05:hash-depends-on-association", {"terms": texts, "first": n0, "second": nm_, "scales": [repr(float(a0.base_value)), repr(float(a_.base_value))]}))
+                break
         # every result belongs to the registry of its (left) operand -- also the degenerate ones (u**0, u/u)
         if reg is not None:
             for nm, r_ in (("u*v", u * v), ("u/v", u / v), ("u**p", u**pp), ("u**0", u**0), ("u/u", u / u), ("(u**0)*v", (u**0) * v), ("u**-1", u**-1),
